@@ -90,6 +90,44 @@ def parseItem (t : String) : Option (Transcript Fq Fq Fq) :=
     | _, _ => none
   | _ => none
 
+def cpOfFlat5 : List Fq → Option (CProof Fq Fq)
+  | [c, t, zbf, z0, z1, z2, z3, z4] => some ⟨c, t, zbf, [z0, z1, z2, z3, z4]⟩
+  | _ => none
+
+/-- a pay proof as one flat list: kN kC | tok: s1 s2 C T zbf z0..z4 | rl: C T zbf z | st: C T zbf z0..z4 |
+cl: C T zbf z0..z4 | cbR 9x6 | mbR 9x6  (2 + 10 + 4 + 8 + 8 + 54 + 54 = 140) -/
+def payProofOfFlat (l : List Fq) : Option (PayProofM Fq Fq Fq) :=
+  if l.length ≠ 140 then none else
+  match l.take 2, (l.drop 2).take 10, (l.drop 12).take 4 with
+  | [kN, kC], [s1, s2, c, t, zbf, z0, z1, z2, z3, z4], [lc, lt, lzbf, lz] => do
+    let st ← cpOfFlat5 ((l.drop 16).take 8)
+    let cl ← cpOfFlat5 ((l.drop 24).take 8)
+    pure ⟨kN, kC, ⟨⟨s1, s2⟩, ⟨c, t, zbf, [z0, z1, z2, z3, z4]⟩⟩, ⟨lc, lt, lzbf, [lz]⟩, st, cl,
+      sproofsOfFlat ((l.drop 32).take 54), sproofsOfFlat ((l.drop 86).take 54)⟩
+  | _, _, _ => none
+
+def flatOfCp (p : CProof Fq Fq) : List Fq := [p.C, p.T, p.zbf] ++ p.zs
+def flatOfSp (p : SProof Fq Fq Fq) : List Fq := [p.sig.s1, p.sig.s2] ++ flatOfCp p.cp
+def flatOfPay (p : PayProofM Fq Fq Fq) : List Fq :=
+  [p.kNonce, p.kClose] ++ flatOfSp p.tok ++ flatOfCp p.rl ++ flatOfCp p.st ++ flatOfCp p.cl ++
+    p.cbR.flatMap flatOfSp ++ p.mbR.flatMap flatOfSp
+
+/-- pay draws as a flat list of 87 scalars (order of `PayDraws`) -/
+def payDrawsOfFlat (l : List Fq) : Option (PayDraws Fq) :=
+  if l.length ≠ 87 then none else
+  match l.drop 72 with
+  | [bfR, tbfR, tR, bfT, tbfT, t0T, t1T, rT, bfS, tbfS, t1S, t2S, bfC, tbfC, t1C] =>
+    some ⟨drawsOfFlat (l.take 36), drawsOfFlat ((l.drop 36).take 36), bfR, tbfR, tR, bfT, tbfT, t0T, t1T, rT, bfS, tbfS, t1S, t2S, bfC, tbfC, t1C⟩
+  | _ => none
+
+def mkPayParams (pk : List String) (rp : List String) (rev : List String) : Option (PayParams Fq Fq) :=
+  match pk, rp, rev with
+  | [g1, y1s, g2, x2, y2s], [sigs, rg1, ry1, rg2, rx2, ry2], [h, g] => do
+    pure ⟨mkPk (← parseFq g1) (← parseList y1s) (← parseFq g2) (← parseFq x2) (← parseList y2s),
+      mkRp (← parseList sigs) (← parseFq rg1) (← parseFq ry1) (← parseFq rg2) (← parseFq rx2) (← parseFq ry2),
+      ped (← parseFq h) [← parseFq g]⟩
+  | _, _, _ => none
+
 def tErr : Err → String
   | .amountTooLarge v => join [tV "amount-too-large", tN v]
   | .insufficientFunds => tV "insufficient-funds"
@@ -205,6 +243,28 @@ def dispatch (args : List String) : Option String :=
       let p := estProveWith pk (← parseFq close) (← parseList ms) d (← parseFq c)
       pure (join [tS p.kCid, tS p.kClose, tS p.kCb, tS p.kMb, tS p.st.C, tS p.st.T, tS p.st.zbf, tL p.st.zs,
         tS p.cl.C, tS p.cl.T, tS p.cl.zbf, tL p.cl.zs])
+  -- zkAbacus pay proofs (C02, C06, C12): params = 5 pk args, 6 range-parameter args, 2 revocation-parameter args
+  | "pay-verify" :: g1 :: y1s :: g2 :: x2 :: y2s :: sigs :: rg1 :: ry1 :: rg2 :: rx2 :: ry2 :: h :: g :: close :: nonce :: amount :: proof :: c :: [] => do
+      let pm ← mkPayParams [g1, y1s, g2, x2, y2s] [sigs, rg1, ry1, rg2, rx2, ry2] [h, g]
+      let p ← payProofOfFlat (← parseList proof)
+      match payVerifyWith Fq.e pm (← parseFq close) ⟨← parseFq nonce, ← parseFq amount⟩ p (← parseFq c) with
+      | some (s, cl, rl) => pure (join [tV "some", tS s, tS cl, tS rl])
+      | none => pure (tV "none")
+  | "pay-transcript" :: g1 :: y1s :: g2 :: x2 :: y2s :: sigs :: rg1 :: ry1 :: rg2 :: rx2 :: ry2 :: h :: g :: close :: nonce :: amount :: proof :: ctx :: legacy :: [] => do
+      let pm ← mkPayParams [g1, y1s, g2, x2, y2s] [sigs, rg1, ry1, rg2, rx2, ry2] [h, g]
+      let p ← payProofOfFlat (← parseList proof)
+      let cl ← parseFq close
+      let pub : PayPub Fq := ⟨← parseFq nonce, ← parseFq amount⟩
+      let cx ← parseBytes ctx
+      let t := if legacy == "1" then Legacy.payTranscript pm cl pub p cx else payTranscript pm cl pub p cx
+      pure (tTranscript t)
+  | "pay-prove" :: g1 :: y1s :: g2 :: x2 :: y2s :: sigs :: rg1 :: ry1 :: rg2 :: rx2 :: ry2 :: h :: g :: close :: old :: new :: t1 :: t2 :: cbv :: mbv :: draws :: c :: [] => do
+      let pm ← mkPayParams [g1, y1s, g2, x2, y2s] [sigs, rg1, ry1, rg2, rx2, ry2] [h, g]
+      let d ← payDrawsOfFlat (← parseList draws)
+      match payBuilders pm (← parseFq close) (← parseList old) (← parseList new) ⟨← parseFq t1, ← parseFq t2⟩
+          (i64OfU64 (← parseHex cbv)) (i64OfU64 (← parseHex mbv)) d with
+      | none => pure (tV "none")
+      | some b => pure (join [tV "ok", tL (flatOfPay (b.respond (← parseFq c)))])
   | ["pk-validate", g1, y1s, g2, x2, y2s] => do
       let pk := mkPk (← parseFq g1) (← parseList y1s) (← parseFq g2) (← parseFq x2) (← parseList y2s)
       pure (tB (decide pk.Valid))
